@@ -54,6 +54,14 @@ theorem idxOf_none {p : UInt8 → Bool} : ∀ {s : Bytes}, idxOf p s = none → 
       | zero => simpa using hb
       | succ j => simpa using ih h j (by simpa using hj)
 
+theorem bind_eq_ok {α β : Type} {r : Res α} {f : α → Res β} {x : β} (h : r.bind f = .ok x) :
+    ∃ a, r = .ok a ∧ f a = .ok x := by
+  cases r with
+  | ok a => exact ⟨a, rfl, h⟩
+  | err l c m => cases h
+  | oob => cases h
+  | fuel => cases h
+
 theorem getD_drop (t : Bytes) (i j : Nat) : (t.drop i).getD j 0 = t.getD (i + j) 0 := by
   simp [List.getD_eq_getElem?_getD]
 
